@@ -267,7 +267,7 @@ class Spin(BaseException):
     """listen() was called far more often than the plan can explain"""
 
 
-R_EVENTS = ['msg', 'other-channel', 'other-type', 'no-data', 'drop', 'crash']
+R_EVENTS = ['msg', 'other-channel', 'other-type', 'no-data', 'drop', 'crash', 'non-dict-payload']
 
 
 def fake_redis(asyncio_, st):
@@ -317,6 +317,10 @@ def fake_redis(asyncio_, st):
                 return {'type': 'pmessage', 'pattern': b'*', 'channel': ch, 'data': emit_msg('intruder')}
             if ev == 'no-data':
                 return {'type': 'message', 'pattern': None, 'channel': ch}
+            if ev == 'non-dict-payload':
+                # `'method' in 5` raises outside the per-message handler: the listener restarts _listen() and drops the old
+                # generator while the connection stays subscribed
+                return {'type': 'message', 'pattern': None, 'channel': ch, 'data': pickle.dumps(5)}
             if ev == 'drop':
                 self.broken = True
                 st['down'] = f
@@ -341,6 +345,8 @@ def fake_redis(asyncio_, st):
                 self._enter()
                 while self.channels:
                     await miniloop.sleep(0)
+                    if not self.channels:
+                        break               # an UNSUBSCRIBE was processed while this read was blocked
                     m = self._step()
                     if m is not None:
                         yield m
@@ -540,13 +546,13 @@ META = dict(
                 'Everything here is concrete once the solver has chosen the plan: the solver enumerates plans. '
                 'redis-listen / redis-publish: the real RedisManager / AsyncRedisManager (built on a fake of the redis client '
                 'library installed as the module global) run their real listening loop against a broker script of messages '
-                '(own channel, other channel, other type, without data), connection drops followed by f failing '
+                '(own channel, other channel, other type, without data, a pickled non-dict), connection drops followed by f failing '
                 'reconnections, and a non-Redis error of the library; the loop must end blocked in listen() on a subscribed '
                 'connection, every message delivered while subscribed must reach the client once and in order, and the waits '
                 'must double from 1 s, stay capped at 60 s and restart at 1 s after a successful reconnection; publish() '
                 'retries once on a fresh connection, then gives up without raising and without affecting the next message.',
     bounds={'quick': 'one item (%d kinds x 4 encodings x 4 variants) + sentinel; two items when the first is a fault; Redis: two '
-                     'broker events (6 kinds, up to 2 failing reconnections) + a final message, one drop with up to 8 failing '
+                     'broker events (7 kinds, up to 2 failing reconnections) + a final message, one drop with up to 8 failing '
                      'reconnections; two publishes with 0-3 failing attempts each' % len(KINDS),
             'thorough': 'two items + sentinels; Redis: three broker events, two drops with up to 8 failing reconnections'},
     outside=['the Kombu/ZMQ/Kafka/aio_pika backends (their client libraries are not installed and are not faked)', 'the real redis-py: the fake follows its documented pub/sub behaviour', 'hostile pickles',
@@ -554,6 +560,6 @@ META = dict(
     stubs=['backend: _publish appends to a list, _listen is a (restartable) generator over the channel',
            'redis / redis.asyncio -> in-process fake (from_url connects lazily; subscribe/publish raise ConnectionError while down; '
            'listen() runs while subscribed; messages as redis-py dicts); time.sleep / asyncio.sleep in the Redis managers -> recorder',
-           'engine.io server -> FakeEio/FakeAEio', 'JSON text of Socket.IO packets -> TokJson', 'asyncio -> vf.miniloop'],
+           'engine.io server -> FakeEio/FakeAEio', 'JSON text of Socket.IO packets -> TokJson', 'asyncio -> vf.miniloop (which closes dropped async generators from a later task, like asyncio\'s asyncgen hooks)'],
     assumptions=['redis-py pub/sub behaves as the fake does (listen() returns at once on a connection that never subscribed)'],
 )
